@@ -101,6 +101,35 @@ def rule_zero_division(chk, db, cfgname):
     chk.count('c01.3.accumulator_divisions', n)
 
 
+def rule_dedupe_fixpoint(chk, db, cfgname):
+    """C01.4: DedupeEdges repeats scan-and-split until a scan finds nothing: DedupeEdge adds triangles whose outer edges
+    can coincide with existing ones, so one pass is not enough (every directed edge must occur once)"""
+    import cfg as C
+    import tree as T
+    fs = [f for f in db.fn('manifold::Manifold::Impl::DedupeEdges') if f.get('blocks')]
+    if len(fs) != 1:
+        from db import AnalysisBroken
+        raise AnalysisBroken('C01.4: DedupeEdges not found uniquely')
+    f = fs[0]
+    g = C.Cfg(f)
+    loops = g.loops()
+    n = 0
+    for b in f['blocks']:
+        for e in b['ev']:
+            if e.get('k') == 'call' and T.short(e.get('fn', '')) == 'DedupeEdge':
+                n += 1
+                depth = sum(1 for h, body in loops.items() if b['id'] in body)
+                ok = depth >= 2
+                chk.obligation(ok, {'function': f['name'], 'line': e.get('ln'), 'loop nesting of the split': depth,
+                                    'inside a rescanning loop': ok})
+                if not ok:
+                    chk.violation('C01.4', f, 'DedupeEdges splits in a single pass',
+                                  'DedupeEdge is applied to the edges found by ONE scan only (loop nesting %d): the '
+                                  'triangles a split adds can duplicate an existing directed edge, which is then never '
+                                  'found, and the result is not a 2-manifold' % depth, line=e.get('ln'), cfg=cfgname)
+    chk.count('c01.4.split_sites', n)
+
+
 def main(chk, tier):
     import db as D
     configs = ['seq', 'par'] if tier == 'quick' else ['seq', 'par', 'seq-debug', 'par-debug']
@@ -114,6 +143,8 @@ def main(chk, tier):
              'RemoveUnreferencedVerts NaN-marks vertices, CalculateBBox turns a non-finite box into MakeEmpty')
     chk.rule('C01.3', 'no floating-point division by a zero-initialised local that is only accumulated by conditional '
              'increments (so it can stay 0 although its loop runs) without a dominating test of that local (0/0 = NaN would enter the mesh data; "all numbers are finite")')
+    chk.rule('C01.4', 'DedupeEdges iterates scan-and-split to a fixpoint: the DedupeEdge call sits inside a rescanning '
+             'loop (a split can create a new coincident edge)')
     for cfgname in configs:
         db = D.load(cfgname)
         chk.configs.append(cfgname)
@@ -124,12 +155,14 @@ def main(chk, tier):
         escape.report(chk, e, res, reqv, 'C01.1', cfgname, BITS)
         contracts.verify(chk, db, cfgname, 'C01.2', BITS)
         rule_zero_division(chk, db, cfgname)
+        rule_dedupe_fixpoint(chk, db, cfgname)
         for ex in tab['exempt_generators']:
             chk.count('c01.1.exempt_generators')
     n = len(configs)
     chk.floor('c01.1.escape_points', 35 * n)
     chk.floor('c01.1.summarised_methods', 60 * n)
     chk.floor('c01.2.contract_clauses', 4 * n)
+    chk.floor('c01.4.split_sites', n)
     return chk.finish(
         'Escape typestate over every function that creates or finishes a Manifold::Impl: a may-dataflow of the bits '
         'T/S/G per Impl object with interprocedural gen/kill summaries of all Impl methods derived from a table of '
